@@ -5,7 +5,8 @@
 # One scratch worktree outside /repo and /verif, removed at the end. Results: seeded/_incoming/RESULTS.tsv
 set -u
 W=/var/tmp/rxsim-confirm
-OUT=/verif/seeded/_incoming/RESULTS.tsv
+SRC=${SRC:-/verif/seeded/_incoming}
+OUT=$SRC/RESULTS.tsv
 git -C /repo worktree remove --force $W >/dev/null 2>&1
 git -C /repo worktree add -q --detach $W HEAD || exit 2
 export CARGO_NET_OFFLINE=true
@@ -13,7 +14,7 @@ HEAD=$(git -C /repo rev-parse --short HEAD)
 echo -e "mutant\thead\tapplies\tsuite_with_patch\tdemo_with_patch\tdemo_without_patch" > $OUT
 run_tests() { # $1 = filter (may be empty) ; prints "pass=N fail=M"
   (cd $W && timeout 1200 cargo test --offline --no-fail-fast $1 2>&1 | grep -E "^test result" | head -1 | sed -E 's/.*ok\. |.*FAILED\. //; s/;.*//; s/ passed/P/; s/^/ /' ) ; }
-for d in /verif/seeded/_incoming/C*/m*; do
+for d in $SRC/C*/m*; do
   id=$(basename $(dirname $d))/$(basename $d)
   [ -n "${ONLY:-}" ] && [[ "$id" != $ONLY ]] && continue
   P=$d/patch.diff; [ -f $d/patch.ported.diff ] && P=$d/patch.ported.diff
